@@ -33,33 +33,45 @@ Proof.
     intros E; injection E as _ <- _; cbn [set_hist t_balance]; auto.
 Qed.
 
-Lemma nondebit_submit_loop_Zb fs : forall (t : traveller) pc now p t' pc',
-  Zb t -> submit_loop t pc fs now p false = inl (t', pc') -> Zb t'.
+Lemma nondebit_follow_on_balance (t : traveller) f now taxi t' bac pd :
+  follow_on_flight t f now taxi false = inl (t', bac, pd) -> t_balance t' = t_balance t /\ bac = k0 N.
 Proof.
-  induction fs as [|f r IH]; intros t pc now p t' pc' Hz; cbn [submit_loop].
+  unfold follow_on_flight. destruct (add_flight (t_hist t) f); [|discriminate].
+  intros E; injection E as <- <- _. split; reflexivity.
+Qed.
+
+Lemma nondebit_checkin_one (first : bool) (t : traveller) f now taxi t' bac pd :
+  checkin_one first t f now taxi false = inl (t', bac, pd) ->
+  t_balance t' = t_balance t /\ (bac = t_balance t \/ bac = k0 N).
+Proof.
+  destruct first; cbn [checkin_one]; intros E.
+  - split; [eapply nondebit_submit_flight_balance; eauto|eapply nondebit_submit_flight_bac; eauto].
+  - destruct (nondebit_follow_on_balance _ _ _ _ _ _ _ E) as [A B]. split; [exact A|right; exact B].
+Qed.
+
+Lemma nondebit_submit_loop_from_Zb fs : forall first (t : traveller) pc now p t' pc',
+  Zb t -> submit_loop_from first t pc fs now p false = inl (t', pc') -> Zb t'.
+Proof.
+  induction fs as [|f r IH]; intros first t pc now p t' pc' Hz; cbn [submit_loop_from].
   - intros E. injection E as <- _. exact Hz.
-  - destruct (submit_flight t f now (pTaxi p) false) as [[[t1 bac] pd]|e] eqn:Es; [|discriminate].
-    pose proof (nondebit_submit_flight_balance t f now (pTaxi p) t1 bac pd Es) as Eb.
+  - destruct (checkin_one first t f now (pTaxi p) false) as [[[t1 bac] pd]|e] eqn:Es; [|discriminate].
+    destruct (nondebit_checkin_one first t f now (pTaxi p) t1 bac pd Es) as [Eb Hbac].
     assert (Hb : kltb N bac (k0 N) = false).
-    { destruct (nondebit_submit_flight_bac t f now (pTaxi p) t1 bac pd Es) as [->| ->]; [rewrite Hz|]; exact zero_not_below_zero. }
+    { destruct Hbac as [->| ->]; [rewrite Hz|]; exact zero_not_below_zero. }
     rewrite Hb, andb_false_r. apply IH. unfold Zb in *. congruence.
 Qed.
+
+Lemma nondebit_submit_loop_Zb fs (t : traveller) pc now p t' pc' :
+  Zb t -> submit_loop t pc fs now p false = inl (t', pc') -> Zb t'.
+Proof. apply nondebit_submit_loop_from_Zb. Qed.
 
 (** a zero balance is never grounded, so a non-debiting submission is never refused as grounded *)
 Lemma zero_balance_not_grounded (t : traveller) now : Zb t -> ~ grounded t now.
 Proof. intros Hz. apply in_credit_not_grounded. rewrite Hz. exact zero_at_least_zero. Qed.
 
-Lemma nondebit_submit_loop_not_grounded fs : forall (t : traveller) pc now p,
+Lemma nondebit_submit_loop_not_grounded fs (t : traveller) pc now p :
   Zb t -> submit_loop t pc fs now p false <> inr EGrounded.
-Proof.
-  induction fs as [|f r IH]; intros t pc now p Hz; cbn [submit_loop]; [discriminate|].
-  destruct (submit_flight t f now (pTaxi p) false) as [[[t1 bac] pd]|e] eqn:Es.
-  - pose proof (nondebit_submit_flight_balance t f now (pTaxi p) t1 bac pd Es) as Eb.
-    assert (Hb : kltb N bac (k0 N) = false).
-    { destruct (nondebit_submit_flight_bac t f now (pTaxi p) t1 bac pd Es) as [->| ->]; [rewrite Hz|]; exact zero_not_below_zero. }
-    rewrite Hb, andb_false_r. apply IH. unfold Zb in *. congruence.
-  - intros C. injection C as ->. apply submit_flight_grounded_iff in Es. exact (zero_balance_not_grounded t now Hz Es).
-Qed.
+Proof. intros Hz. apply in_order_submission_not_grounded. apply zero_balance_not_grounded, Hz. Qed.
 
 Lemma keep_promise_balance (t : traveller) : t_balance (fst (keep_promise t)) = t_balance t.
 Proof.
